@@ -394,28 +394,77 @@ func checkC20EndToEnd(c *core.Ctx, bin string) {
 		for i := 0; i < 16; i++ {
 			streams = append(streams, genC20E2E(r))
 		}
-		dir := c.CaseDir("c20e")
-		defer removeAll(dir)
-		in, outp := filepath.Join(dir, "in.json"), filepath.Join(dir, "out.json")
-		b, _ := json.Marshal(streams)
-		os.WriteFile(in, b, 0644)
-		msg, err := runOverlayTestNamed(bin, dir, in, outp, "TestVerifE2E")
-		ob, rerr := os.ReadFile(outp)
-		if err != nil || rerr != nil {
-			if strings.Contains(msg, "pty: ") {
-				c.Inconclusive("no-pty", "no pseudo-terminal available: "+clip(msg, 300))
+		// one console process per call; a session that never ends makes the
+		// rest of its batch 'not-run': those go into a further process, the
+		// one that did not end is repeated on its own before it is reported
+		runBatch := func(ss []c20E2E) ([]c20E2EOut, bool) {
+			dir := c.CaseDir("c20e")
+			defer removeAll(dir)
+			in, outp := filepath.Join(dir, "in.json"), filepath.Join(dir, "out.json")
+			b, _ := json.Marshal(ss)
+			os.WriteFile(in, b, 0644)
+			msg, err := runOverlayTestNamed(bin, dir, in, outp, "TestVerifE2E")
+			ob, rerr := os.ReadFile(outp)
+			if err != nil || rerr != nil {
+				if strings.Contains(msg, "pty: ") {
+					c.Inconclusive("no-pty", "no pseudo-terminal available: "+clip(msg, 300))
+					return nil, false
+				}
+				c.Violation("C20:e2e:console-process-died", "the console process died during an end-to-end session: "+clip(msg, 800), map[string]interface{}{"batch": bi})
+				return nil, false
+			}
+			var outs []c20E2EOut
+			if err := json.Unmarshal(ob, &outs); err != nil || len(outs) != len(ss) {
+				c.Inconclusive("harness", "bad e2e driver output")
+				return nil, false
+			}
+			return outs, true
+		}
+		outs := make([]c20E2EOut, len(streams))
+		todo := make([]int, len(streams))
+		for i := range todo {
+			todo[i] = i
+		}
+		neverEnds := 0
+		for len(todo) > 0 && neverEnds < 2 {
+			var ss []c20E2E
+			for _, i := range todo {
+				ss = append(ss, streams[i])
+			}
+			got, ok := runBatch(ss)
+			if !ok {
 				return
 			}
-			c.Violation("C20:e2e:console-process-died", "the console process died during an end-to-end session: "+clip(msg, 800), map[string]interface{}{"batch": bi})
-			return
+			var next []int
+			for k, i := range todo {
+				switch {
+				case got[k].Err == "not-run":
+					next = append(next, i)
+				case strings.HasPrefix(got[k].Err, "no-return"):
+					again, ok := runBatch([]c20E2E{streams[i]})
+					if !ok {
+						return
+					}
+					outs[i] = again[0]
+					if strings.HasPrefix(again[0].Err, "no-return") {
+						neverEnds++
+					} else {
+						outs[i].Err = "harness: session did not end once, did when repeated"
+					}
+				default:
+					outs[i] = got[k]
+				}
+			}
+			todo = next
 		}
-		var outs []c20E2EOut
-		if err := json.Unmarshal(ob, &outs); err != nil || len(outs) != len(streams) {
-			c.Inconclusive("harness", "bad e2e driver output")
-			return
+		for _, i := range todo {
+			outs[i].Err = "skipped"
 		}
 		for i, st := range streams {
 			o := outs[i]
+			if o.Err == "skipped" {
+				continue
+			}
 			c.Count("e2e_sessions", 1)
 			if st.rejBefore {
 				c.Count("e2e_sessions_with_a_rejected_statement_before_a_valid_one_on_the_same_line", 1)
@@ -426,7 +475,10 @@ func checkC20EndToEnd(c *core.Ctx, bin string) {
 			case o.Panic != "":
 				c.Violation("C20:e2e:panic", "console session panicked: "+o.Panic, replay)
 				continue
-			case strings.HasPrefix(o.Err, "setup:") || strings.HasPrefix(o.Err, "typing:"):
+			case strings.HasPrefix(o.Err, "no-return"):
+				c.Violation("C20:e2e:session-never-ends", "every keystroke of the session including the closing Ctrl-D on an empty line was delivered, and the console was still waiting 30 s later (twice: in its batch and alone): some line was never submitted", replay)
+				continue
+			case strings.HasPrefix(o.Err, "setup:") || strings.HasPrefix(o.Err, "typing:") || strings.HasPrefix(o.Err, "harness:"):
 				c.Inconclusive("harness", "e2e session could not be set up: "+o.Err)
 				continue
 			case o.Err != "":
